@@ -33,7 +33,10 @@ Definition ity_nn (t : ity) : bool :=
 Inductive scalar_kind :=
 | KInt | KFloat | KString | KID | KBoolean
 | KAny      (* schema.scalars.default_scalar: transparent custom scalar *)
-| KTag.     (* the harness' user scalar: non-empty strings only *)
+| KTag      (* the harness' user scalar: non-empty strings only *)
+| KOdd.     (* the harness' raising user scalar: odd integers; its parser raises
+               TypeError / ValueError for what it refuses and an ARBITRARY
+               exception (neither of the two) for 13 *)
 
 Record ifield := IField {
   f_name : str;                (* GraphQL name *)
@@ -233,6 +236,12 @@ Definition is_field (k : str) (fs : list ifield) : bool :=
    is never null here. *)
 Definition int_range (z : Z) : outcome pv := if in_int32 z then Ok (PInt z) else rejC.
 
+(* the raising user scalar: ScalarType.parse only turns ValueError / TypeError
+   into ScalarParsingError; "other exceptions bubble up" (docstring) = Crash *)
+Definition CK_user_exception : nat := 7.
+Definition odd_value (z : Z) (rej : outcome pv) : outcome pv :=
+  if z =? 13 then Crash CK_user_exception else if Z.odd z then Ok (PInt z) else rej.
+
 Definition parse_scalar (k : scalar_kind) (j : json) : outcome pv :=
   match k with
   | KInt =>                                     (* _parse_int -> coerce_int *)
@@ -281,6 +290,7 @@ Definition parse_scalar (k : scalar_kind) (j : json) : outcome pv :=
             | JStr (c :: s) => Ok (PStr (c :: s))
             | _ => rejC
             end
+  | KOdd => match j with JInt z => odd_value z rejC | _ => rejC end
   end.
 
 (* -------------------------------------------- scalars: the literal route *)
@@ -316,6 +326,10 @@ Definition parse_literal (k : scalar_kind) (l : value) : outcome pv :=
             end
   | KTag => match l with
             | VString (c :: s) _ _ => Ok (PStr (c :: s))
+            | _ => rejI
+            end
+  | KOdd => match l with
+            | VInt s _ => match parse_int_text s with Some z => odd_value z rejI | None => rejI end
             | _ => rejI
             end
   end.
